@@ -168,3 +168,76 @@ class EventV2Lifetime(EventV2Logic):
     nrandom = {"quick": 0, "thorough": 1000}
     def programs(self, tier):
         return [("0", "W0", "S", "KK"), ("0", "W0", "S", "X0", "K"), ("0", "W0", "W1", "S", "X1", "K")]
+
+
+def lifetime_key(verdict):
+    """violation key of a k1_event_v2 monitor verdict: the failing call site, not the program.
+    'operation w1 touched after its completion: w1.rest C.rlx 0->NIL|1 fail' -> .../rest:C
+    (state:O = cancellable start(): fetch_or(started) on a completed op; self:L = start()'s inline
+    nested_op().stop() -> try_remove on a completed op; rest:C / rest:L = atomic_intrusive_list
+    try_lock_checking on the link word of an unlinked, completed node).  Any other verdict gets a key of
+    its own, so that a new kind of violation is still reported."""
+    m = re.search(r"touched after its completion: w\d+\.(\w+) ([A-Z]+)\.", verdict)
+    if m:
+        return "event_v2/touched-after-completion/%s:%s" % (m.group(1), m.group(2))
+    return "event_v2/lifetime-other/" + re.sub(r"\W+", "_", re.sub(r"w\d+", "wN", verdict)).strip("_")[:80]
+
+def run_lifetime(chk, unit=None):
+    """EventV2Lifetime with one violation key per failing call site (see lifetime_key) and one replay file per
+    (program, key).  Deterministic: preemption-bounded DFS only, no random schedules."""
+    import vlib
+    unit = unit or EventV2Lifetime()
+    exe, err = vlib.build_driver(unit.driver, unit.cfg)
+    if err:
+        pth = chk.replay_file("build_" + unit.driver, {"kind": "build-failure", "driver": unit.driver, "error": err})
+        chk.violation("event_v2/lifetime/build", pth, no_input=True, text="driver %s does not compile against /repo" % unit.driver)
+        return
+    tier = chk.tier
+    ust = chk.cov.setdefault("k1_units", {}).setdefault(
+        unit.name, {"programs": 0, "schedules": 0, "distinct_impl_traces": 0, "failing_traces": 0, "keys": {}})
+    def _run(prog):
+        cmd = [exe] + list(prog) + ["--explore", str(unit.bound[tier]), str(unit.maxruns[tier])]
+        if unit.nrandom[tier]:
+            cmd += ["--random", str(chk.seed), str(unit.nrandom[tier])]
+        return (prog, cmd) + tuple(vlib.sh2(cmd, timeout=1500))
+    from concurrent.futures import ThreadPoolExecutor
+    progs = list(unit.programs(tier))
+    with ThreadPoolExecutor(vlib.NPROC) as ex:
+        results = list(ex.map(_run, progs))
+    for prog, cmd, rc, out, errt in results:
+        ust["programs"] += 1
+        ptag = "_".join(prog)
+        seen = set()
+        for l in out.split("\n"):
+            if l.startswith("FATAL"):
+                pth = chk.replay_file("event_v2_lifetime_fatal_" + ptag,
+                                      {"kind": "deadlock-or-livelock", "unit": unit.name, "program": prog,
+                                       "line": l[:20000], "replay": " ".join(cmd)})
+                chk.violation("event_v2/lifetime/%s/deadlock" % ptag, pth, text=l[:300])
+            if l.startswith("STATS"):
+                m = re.search(r"runs=(\d+)", l)
+                ust["schedules"] += int(m.group(1)); chk.cov["evaluations"] += int(m.group(1))
+            if not l.startswith("TRACE "):
+                continue
+            head, verdict, tr = l.split(" | ", 2)
+            ust["distinct_impl_traces"] += 1
+            verdict = verdict.strip()
+            if not verdict:
+                continue
+            ust["failing_traces"] += 1
+            key = lifetime_key(verdict)
+            ust["keys"][key] = ust["keys"].get(key, 0) + 1
+            if key in seen:
+                continue
+            seen.add(key)
+            dec = head.split(" ")[2]
+            pth = chk.replay_file("event_v2_lifetime_%s_%s" % (ptag, key.rsplit("/", 1)[1]),
+                                  {"kind": "monitor-failed-on-implementation", "unit": unit.name, "program": prog,
+                                   "key": key, "decisions": dec, "verdict": verdict, "trace": tr.split(";"),
+                                   "replay": "%s %s --replay %s" % (exe, " ".join(prog), dec)})
+            chk.violation(key, pth, text="[%s] %s: %s" % (key, " ".join(prog), verdict[:200]))
+        if rc not in (0, 3):
+            pth = chk.replay_file("event_v2_lifetime_crash_" + ptag,
+                                  {"kind": "driver-crash", "unit": unit.name, "program": prog, "rc": rc,
+                                   "stderr": errt[-3000:], "replay": " ".join(cmd)})
+            chk.violation("event_v2/lifetime/%s/crash" % ptag, pth, text="driver exited rc=%d" % rc)
